@@ -55,6 +55,18 @@ CaseOf(d, t) ==
      files |-> << <<"en", FileNode("en", d, <<>>)>>, <<"fr", FileNode("fr", t, <<>>)>>,
                   <<"de", FileNode("de", t, <<>>)>> >>]
 
+\* cross family: fr and de hold DIFFERENT trees (de still inherits en).  What is reported for one locale depends on the default
+\* tree and on that locale's tree only - never on what another locale happens to contain.
+CaseOf2(d, t1, t2) ==
+    [family |-> "keys-cross",
+     abs   |-> [def |-> d, loc |-> t1, loc2 |-> t2],
+     cfg   |-> [default |-> "en", locales |-> <<"en", "fr", "de">>, inherits |-> << <<"de", "en">> >>],
+     files |-> << <<"en", FileNode("en", d, <<>>)>>, <<"fr", FileNode("fr", t1, <<>>)>>,
+                  <<"de", FileNode("de", t2, <<>>)>> >>]
+CrossTrees == { Mk("val", "val", "abs", g, "val", "val", y, h, "val", z) : g \in {"abs", "null", "group"}, y \in {"abs", "val"},
+                                                                          h \in {"abs", "null", "group"}, z \in {"abs", "val"} }
+FullDefault == Mk("val", "val", "abs", "group", "val", "val", "abs", "group", "val", "abs")
+
 \* default locale with an explicit null somewhere: must be rejected
 NullDefaultCase(which) ==
     LET d == IF which = 1 THEN ("k1" :> Null) @@ ("k2" :> Val)
